@@ -134,7 +134,7 @@ theorem sizeField_block (b : Block) (hw : b.WF) (rest : List Cell) :
 /-- a block whose count field does not match its entries (a wrapped `EntryCount`): the reader
     rejects it, whatever follows -/
 theorem readBlocks_block_badcnt (f : Nat) (b : Block) (h16 : b.hdr.length = 16) (hle : le32 b.hdr = b.plen)
-    (hc : b.cnt ≠ b.ents.length) (rest : List Cell) :
+    (hpos : 0 < b.plen) (hc : b.cnt ≠ b.ents.length) (rest : List Cell) :
     readBlocks (f + 1) (blockCells b ++ rest) = ([], Stop.crc) := by
   have hlen : (blockCells b ++ rest).length = 16 + b.plen + rest.length := by simp
   have hhead : (blockCells b ++ rest).head? = some (Cell.bh b 0) := by
@@ -147,7 +147,8 @@ theorem readBlocks_block_badcnt (f : Nat) (b : Block) (h16 : b.hdr.length = 16) 
   have h1 : ¬ (16 + b.plen + rest.length = 0) := by omega
   have h2 : ¬ (16 + b.plen + rest.length < 16) := by omega
   have h3 : ¬ (16 + b.plen + rest.length - 16 < b.plen) := by omega
-  simp [h1, h2, h3, hc]
+  have h0 : ¬ b.plen = 0 := by omega
+  simp [h0, h1, h2, h3, hc]
 
 /-- one intact block in front: the reader returns its entries and goes on behind it -/
 theorem readBlocks_block (f : Nat) (b : Block) (hw : b.WF) (rest : List Cell) :
@@ -167,7 +168,8 @@ theorem readBlocks_block (f : Nat) (b : Block) (hw : b.WF) (rest : List Cell) :
   have h1 : ¬ (16 + b.plen + rest.length = 0) := by omega
   have h2 : ¬ (16 + b.plen + rest.length < 16) := by omega
   have h3 : ¬ (16 + b.plen + rest.length - 16 < b.plen) := by omega
-  simp [h1, h2, h3, hw.2.2.2]
+  have h0 : ¬ b.plen = 0 := by have := hw.2.2.1; omega
+  simp [h0, h1, h2, h3, hw.2.2.2]
 
 theorem readBlocks_nil (f : Nat) : readBlocks f [] = ([], Stop.eof) := by
   cases f <;> simp [readBlocks]
@@ -236,7 +238,7 @@ theorem loadFile_clean (c : RCfg) (nl : Nat) (bs : List Block) (hw : ∀ b ∈ b
 /-- **A block with a wrapped count field hides the whole file**: however many intact blocks
     precede it, `LoadIndex` returns an error. -/
 theorem loadFile_badcnt (c : RCfg) (nl : Nat) (bs : List Block) (hw : ∀ b ∈ bs, b.WF) (b : Block)
-    (h16 : b.hdr.length = 16) (hle : le32 b.hdr = b.plen) (hc : b.cnt ≠ b.ents.length) :
+    (h16 : b.hdr.length = 16) (hle : le32 b.hdr = b.plen) (hpos : 0 < b.plen) (hc : b.cnt ≠ b.ents.length) :
     loadFile c (fileCells nl bs ++ blockCells b) = .errLoad := by
   have hdr : (fileCells nl bs ++ blockCells b).drop 64 = nmCells nl ++ (render bs ++ blockCells b) := by
     simp only [fileCells, List.append_assoc]
@@ -256,10 +258,79 @@ theorem loadFile_badcnt (c : RCfg) (nl : Nat) (bs : List Block) (hw : ∀ b ∈ 
   have hnl : ¬ ((nmCells nl ++ (render bs ++ blockCells b)).length < nl) := by simp
   simp only [hnl, if_false]
   rw [hlen, readBlocks_render bs hw _ (blockCells b)]
-  have := readBlocks_block_badcnt ((fileCells nl bs ++ blockCells b).length - bs.length - 1) b h16 hle hc []
+  have := readBlocks_block_badcnt ((fileCells nl bs ++ blockCells b).length - bs.length - 1) b h16 hle hpos hc []
   rw [List.append_nil] at this
   rw [this]
   simp [stopOk]
+
+/-! ### A zero-filled tail (the file size reached the disk, the data did not) -/
+
+def zeros (n : Nat) : List Cell := List.replicate n Cell.zero
+
+theorem readBlocks_zeros (f n : Nat) :
+    readBlocks (f + 1) (zeros n) = ([], if n = 0 then Stop.eof else if n < 16 then Stop.shortHdr else Stop.zero) := by
+  rw [readBlocks]
+  simp only [zeros, List.length_replicate]
+  by_cases h0 : n = 0
+  · simp [h0]
+  · by_cases h1 : n < 16
+    · simp [h0, h1]
+    · obtain ⟨k, rfl⟩ : ∃ k, n = k + 4 := ⟨n - 4, by omega⟩
+      have hs : sizeField (List.replicate (k + 4) Cell.zero) = some 0 := by
+        simp [List.replicate_succ, sizeField, cellByte]
+      simp [h0, h1, hs]
+
+/-- **Repaired reader: a zero-filled tail behind whole blocks changes nothing.** -/
+theorem loadFile_zero_tail (c : RCfg) (h1 : c.shortHeaderIsEOF = true) (h2 : c.zeroTailIsEOF = true) (nl : Nat)
+    (bs : List Block) (hw : ∀ b ∈ bs, b.WF) (n : Nat) :
+    loadFile c (fileCells nl bs ++ zeros n) = .ok (entsOf bs) := by
+  have hdr : (fileCells nl bs ++ zeros n).drop 64 = nmCells nl ++ (render bs ++ zeros n) := by
+    simp only [fileCells, List.append_assoc]
+    rw [List.drop_append_of_le_length (by simp)]
+    simp [List.drop_of_length_le]
+  have hdr2 : (nmCells nl ++ (render bs ++ zeros n)).drop nl = render bs ++ zeros n := by
+    rw [List.drop_append_of_le_length (by simp)]
+    simp [List.drop_of_length_le]
+  have hlen : (fileCells nl bs ++ zeros n).length = bs.length + (((fileCells nl bs ++ zeros n).length - bs.length - 1) + 1) := by
+    have := render_length_ge bs
+    simp only [fileCells, List.length_append, fhCells_length, nmCells_length, zeros, List.length_replicate]
+    omega
+  have hh : headerOf (fileCells nl bs ++ zeros n) = some nl := by
+    simp only [fileCells, List.append_assoc]; exact headerOf_file nl _
+  simp only [loadFile, hh, hdr, hdr2]
+  have hnl : ¬ ((nmCells nl ++ (render bs ++ zeros n)).length < nl) := by simp
+  simp only [hnl, if_false]
+  rw [hlen, readBlocks_render bs hw _ (zeros n), readBlocks_zeros]
+  by_cases a : n = 0
+  · simp [a, stopOk]
+  · by_cases b : n < 16
+    · simp [a, b, stopOk, h1]
+    · simp [a, b, stopOk, h2]
+
+/-- **A reader that takes the zero header for a block: the zero-filled tail wipes the swamp.** -/
+theorem loadFile_zero_tail_error (c : RCfg) (h2 : c.zeroTailIsEOF = false) (nl : Nat)
+    (bs : List Block) (hw : ∀ b ∈ bs, b.WF) (n : Nat) (hn : 16 ≤ n) :
+    loadFile c (fileCells nl bs ++ zeros n) = .errLoad := by
+  have hdr : (fileCells nl bs ++ zeros n).drop 64 = nmCells nl ++ (render bs ++ zeros n) := by
+    simp only [fileCells, List.append_assoc]
+    rw [List.drop_append_of_le_length (by simp)]
+    simp [List.drop_of_length_le]
+  have hdr2 : (nmCells nl ++ (render bs ++ zeros n)).drop nl = render bs ++ zeros n := by
+    rw [List.drop_append_of_le_length (by simp)]
+    simp [List.drop_of_length_le]
+  have hlen : (fileCells nl bs ++ zeros n).length = bs.length + (((fileCells nl bs ++ zeros n).length - bs.length - 1) + 1) := by
+    have := render_length_ge bs
+    simp only [fileCells, List.length_append, fhCells_length, nmCells_length, zeros, List.length_replicate]
+    omega
+  have hh : headerOf (fileCells nl bs ++ zeros n) = some nl := by
+    simp only [fileCells, List.append_assoc]; exact headerOf_file nl _
+  simp only [loadFile, hh, hdr, hdr2]
+  have hnl : ¬ ((nmCells nl ++ (render bs ++ zeros n)).length < nl) := by simp
+  simp only [hnl, if_false]
+  rw [hlen, readBlocks_render bs hw _ (zeros n), readBlocks_zeros]
+  have a : ¬ n = 0 := by omega
+  have b : ¬ n < 16 := by omega
+  simp [a, b, stopOk, h2]
 
 end Hv.BlockStore
 
